@@ -1146,27 +1146,44 @@ def mon_C15(case, lines):
                     v.append("C15: dispatch on an instance without dispatcher gave %s" % items)
                 continue
             snap = list(chains.get((i, k), []))
-            want = []
-            stopped = False
-            for h in snap:
-                want.append("call %d %s %d" % (i, k, h))
-                res, ops = beh(h)
-                for o in ops:
-                    if o[1] in wrapped:
-                        ch = chains.setdefault((o[1], o[2]), [])
-                        if o[0] == "unreg" and o[3] not in ch:
-                            want.append("valueerror")
-                        apply(o, None, 0)
-                    else:
-                        want.append("nowrapper")
-                if res == "interrupt" and k in ("timer", "telem", "packet"):
-                    stopped = True
-                    break
-            if not stopped:
+            budget = [0]
+
+            def dispatch(i, k, want):
+                """what one dispatch must do, appended to want; recursive for dispatches started inside a handler"""
+                budget[0] += 1
+                if budget[0] > 300:
+                    raise RecursionError
+                if i not in wrapped:
+                    want.append("proto %d %s" % (i, k))
+                    return
+                for h in list(chains.get((i, k), [])):
+                    want.append("call %d %s %d" % (i, k, h))
+                    res, ops = beh(h)
+                    for o in ops:
+                        if o[0] == "ndisp":
+                            want.append("enter %d %s" % (o[1], o[2]))
+                            dispatch(o[1], o[2], want)
+                            want.append("exit")
+                        elif o[1] in wrapped:
+                            ch = chains.setdefault((o[1], o[2]), [])
+                            if o[0] == "unreg" and o[3] not in ch:
+                                want.append("valueerror")
+                            apply(o, None, 0)
+                        else:
+                            want.append("nowrapper")
+                    if res == "interrupt" and k in ("timer", "telem", "packet"):
+                        return
                 want.append("proto %d %s" % (i, k))
+            want = []
+            try:
+                dispatch(i, k, want)
+            except RecursionError:
+                return v          # handlers dispatching each other without end: no expectation
+            if "outoffuel" in items:
+                return v
             if items != want:
-                gc = [x for x in items if x.startswith(("call", "proto"))]
-                wc = [x for x in want if x.startswith(("call", "proto"))]
+                gc = [x for x in items if x.startswith(("call", "proto", "enter", "exit"))]
+                wc = [x for x in want if x.startswith(("call", "proto", "enter", "exit"))]
                 if gc != wc:
                     v.append("C15: dispatch %d/%s with chain (newest first) %s invoked %s, expected %s" % (i, k, snap, gc, wc))
                     return v
